@@ -55,6 +55,18 @@ def _is_store_write(n: ast.AST) -> str | None:
 def run(ctx: Ctx) -> None:
     idx = ctx.idx
     n_sites = 0
+    # engine attributes that survive a check: those `reset()` does not re-initialise (the caches it clears are per-check
+    # memo tables -- `if id in self.checked: return …` inside one check is not a dependence on the session)
+    eng = idx.find_class("CompilationEngine", "guppylang_internals.engine")
+    reset = eng.methods.get("reset")
+    cleared = {t.attr for n in ast.walk(reset.node) if isinstance(n, ast.Assign) for t in n.targets
+               if isinstance(t, ast.Attribute) and isinstance(t.value, ast.Name) and t.value.id == "self"} if reset else set()
+    all_attrs = {t.attr for m in eng.methods.values() for n in ast.walk(m.node) if isinstance(n, (ast.Assign, ast.AnnAssign))
+                 for t in (n.targets if isinstance(n, ast.Assign) else [n.target])
+                 if isinstance(t, ast.Attribute) and isinstance(t.value, ast.Name) and t.value.id == "self"}
+    ENGINE_CACHES.clear()
+    ENGINE_CACHES.update(all_attrs - cleared)
+    ctx.note(f"R-C11.5: engine attributes that survive reset(): {sorted(ENGINE_CACHES)}; cleared per check: {sorted(cleared)}")
     for f in idx.iter_funcs(("guppylang_internals", "guppylang")):
         in_engine = f.cls is not None and f.cls.name == "CompilationEngine"
         for n in walk_no_nested(f.node):
